@@ -186,3 +186,41 @@ func c09RelativeExpiryFromNow(r *core.Run) {
 	})
 	r.Floor(rule, cnt, 2)
 }
+
+// tableUpdateWritesVersion: Expire on the owner rewrites the entry's header in place
+// (Table.UpdateTTL). The header carries the expiry AND the write time stamp that
+// last-write-wins, fragment merge and read repair compare: the in-place update must store
+// both from the new entry (and refresh the access time), otherwise the owner's copy gets
+// the new expiry under the old version number — a copy that missed the Expire ties with it,
+// the stale one can win the tie, and read repair skips the holder whose stamp equals the
+// winner's.
+func tableUpdateWritesVersion(r *core.Run, rule string) {
+	fn := r.Need(rule, tablePkg+".(*Table).UpdateTTL")
+	if fn == nil {
+		return
+	}
+	f := fn.SSA
+	got := map[string]bool{}
+	core.Instrs(f, func(in ssa.Instruction) {
+		c, ok := in.(ssa.CallInstruction)
+		if !ok || methodName(c) != "PutUint64" {
+			return
+		}
+		args := c.Common().Args
+		v := core.StripConv(args[len(args)-1])
+		if call, isCall := v.(*ssa.Call); isCall {
+			switch methodName(call) {
+			case "TTL", "Timestamp":
+				got[methodName(call)] = true
+			}
+		}
+		if derivesFromNow(v) {
+			got["now"] = true
+		}
+	})
+	r.Check(got["TTL"] && got["Timestamp"], rule, fn.Name+" header fields", site(r, f.Pos()),
+		"the in-place update stores the new entry's TTL and its write time stamp",
+		"the in-place update does not store both the new TTL and the new write time stamp: Expire leaves the owner's copy at its old version, a copy that missed the Expire ties with it and can win, and read repair never fixes the stale holder")
+	r.Check(got["now"], rule, fn.Name+" access time", site(r, f.Pos()),
+		"the access time is refreshed", "the access time is not refreshed by the update")
+}
